@@ -46,8 +46,8 @@ STEPS = ["sizematcher", "resizer", "pad", "crop", "affine", "intensity"]
 
 def gen_plan(rng, index, tier):
     mode = "dataset" if (index % 3 == 2) else "chain"
-    scene = dw.gen_scene(rng, single=False, max_frames=2, max_animals=2, allow_empty_inst=False, allow_pred=False,
-                         min_hw=40, max_hw=140, two_videos_p=0.3 if mode == "dataset" else 0.0, nan_p=0.2)
+    scene = dw.gen_scene(rng, single=False, max_frames=3 if mode == "dataset" else 2, max_animals=2, allow_empty_inst=False, allow_pred=False,
+                         min_hw=40, max_hw=140, two_videos_p=0.3 if mode == "dataset" else 0.0, nan_p=0.2, empty_frames=(mode == "dataset"))
     plan = {"mode": mode, "scene": scene}
     if mode == "chain":
         steps = []
